@@ -45,11 +45,12 @@ template <typename T> long payload(T &x) { if constexpr (std::is_same_v<std::rem
 
 void resolve_inner(int id) {
     if (dsim::cell_xchg(INNER_DONE + id, 1)) return;
+    (void)vs::cell_get_hb(INNER_READY + id);
     W->inner[id]();
 }
 // suspends the body until somebody resolves inner[id]
 cocls::future<void> wait_inner(int id) {
-    return [id](cocls::promise<void> p) { W->inner[id] = std::move(p); dsim::cell_add(NPENDING, 1); dsim::cell_set(INNER_READY + id, 1); };
+    return [id](cocls::promise<void> p) { W->inner[id] = std::move(p); dsim::cell_add(NPENDING, 1); vs::cell_set_hb(INNER_READY + id, 1); };      // the promise is handed to whoever resolves it: with happens-before
 }
 
 template <typename T> cocls::async<T> body(int id, vs::Counted arg);
